@@ -351,7 +351,12 @@ func (b *GRPCBroker) Accept(id uint32) (net.Listener, error) {
 				defer b.Unlock()
 
 				// No longer need to listen for knocks once the listener is closed.
-				delete(b.serverStreams, id)
+				// The ID may have been accepted again since (and a listener is
+				// commonly closed twice, by the server that served it and by its
+				// owner): only drop the entry that belongs to this listener.
+				if b.serverStreams[id] == p {
+					delete(b.serverStreams, id)
+				}
 
 				return nil
 			},
